@@ -69,7 +69,20 @@ class _IdleReleaseInternalRunAdapter(BaseInternalRunAdapterDecorator):
     async def on_tick(self, tick: WorkflowTick) -> None:
         if not isinstance(tick, TickIdleCheck):
             # the run is doing something: idle again only at its next WorkflowIdleEvent
+            was_marked_idle = self.run_id in self._runtime._idle_runs
             self._runtime._note_processing(self.run_id, tick)
+            if was_marked_idle:
+                # Woken from inside (waiter timeout, retry, an event of its own):
+                # the stored idle mark is stale. A restart only resumes runs that
+                # are not marked idle, so it must not outlive the idle period.
+                try:
+                    await self._store.update_handler_status(
+                        self.run_id, idle_since=None
+                    )
+                except Exception:
+                    logger.exception(
+                        "Failed to clear idle mark of run %s", self.run_id
+                    )
         await super().on_tick(tick)
 
     @override
